@@ -105,3 +105,26 @@ def variant_names(F, adt):
     if a is None:
         return None
     return {v["idx"]: v["name"] for v in a["variants"]}
+
+
+def arm_targets(F, body, adt, min_frac=0.75):
+    """{variant name: [target blocks]} of the match over enum `adt` in body (the widest switch whose explicit target
+    count covers most of the enum's variants).  Variants handled by `otherwise` are mapped to the otherwise block."""
+    names = variant_names(F, adt)
+    if names is None:
+        return None, None
+    blk = widest_switch(body, min_targets=max(2, int(len(names) * min_frac)))
+    if blk is None:
+        return None, None
+    t = blk["term"]
+    out = {}
+    for v, dst in t["targets"]:
+        nm = names.get(int(v))
+        if nm is not None:
+            out.setdefault(nm, []).append(dst)
+    g = cfg_of(body)
+    if g.term(t["otherwise"])["k"] != "unreachable":
+        for nm in names.values():
+            if nm not in out:
+                out[nm] = [t["otherwise"]]
+    return out, blk["id"]
